@@ -422,6 +422,13 @@ def loop_case(draw):
             sy += dy
             cmds.append([l, args])
         cmds.append(["l", [float(-sx), float(-sy)]])
+        if draw(st.integers(0, 3)) == 0:
+            # the "full circle with one arc" idiom with a minute gap, started away from the subpath start
+            r_ = float(draw(st.integers(1, 30)) / 10)
+            gap = draw(st.sampled_from([5e-10, 2e-10, 9e-10]))
+            cmds.append(["l", [1.5, 0.25]])
+            cmds.append(["a", [r_, r_, 0.0, 1, draw(st.integers(0, 1)), 0.0, gap]])
+            cmds.append(["l", [-1.5, -0.25 - gap]])
         closer = draw(st.sampled_from(["z", "Z", "m", None]))
         if closer in ("z", "Z"):
             cmds.append([closer, []])
